@@ -31,6 +31,10 @@ QUOTES1 = ["it's", "d'Artagnan", "'", "'x'", "a 'b' c", "''", "'+proj=longlat'",
 QUOTES2 = ['say "hi"', '"', '"x"', 'a "b" c', '""', '6" pipe', '"+datum=WGS84"', '"a b"']
 WRAPPED = ["'x'", '"x"', "'+proj=longlat'", '"+datum=WGS84"', "'a b'", '"a b"', "''", '""', "'it'", '"7"', "'#fff'", "'[a]'"]
 ESCAPED = ['Size 5\\"', '\\"Tignish', 'say \\"hi\\" now', "it\\'s", "rock \\'n\\' roll", '6\\" pipe', "end\\'"]
+# characters that str.splitlines() / str.strip() / \s treat as line breaks or white space but that are ordinary
+# characters inside a quoted Mapfile string (a carriage return is not in the list: see KF15)
+LINESEP = ["line\u2028sep", "para\u2029graph", "next\x85line", "form\x0cfeed", "v\x0btab", "fs\x1cgs\x1drs\x1e", "\u2028",
+           "x\x0c", "\x85y", "nb\xa0sp", "wide\u3000space", "tab\there", "\x0c include", "\u2028include x", "a\x1f", "\x7f"]
 BACKSL = ["a\\b", "\\d+", "C:\\x", "\\\\server\\share", "a\\ b", "\\n"]
 
 _ALPHA = st.characters(
@@ -43,9 +47,10 @@ CLASS_POOLS = {
     "word": WORDS, "spaced": SPACED, "sql": SQL, "path": PATHS, "hashy": HASHY, "reserved": RESERVED,
     "digits": DIGITS, "latin1": LATIN1, "bmp": BMP, "astral": ASTRAL, "multiline": MULTILINE,
     "lookalike": LOOKALIKE, "squote": QUOTES1, "dquote": QUOTES2, "backslash": BACKSL, "wrapped": WRAPPED, "escaped": ESCAPED,
+    "linesep": LINESEP,
 }
 ORDER = ["word", "spaced", "sql", "path", "hashy", "reserved", "digits", "empty", "latin1", "bmp", "astral",
-         "multiline", "lookalike", "squote", "dquote", "backslash", "wrapped", "escaped", "random", "random_ascii"]
+         "multiline", "lookalike", "squote", "dquote", "backslash", "wrapped", "escaped", "linesep", "random", "random_ascii"]
 
 
 def is_lookalike(s: str) -> bool:
